@@ -378,7 +378,7 @@ class Case:
             probes = [("edb", bytes([self.edb.serialize()[0] ^ 0xFF]) + self.edb.serialize()[1:]),
                       ("key", self.key.serialize() + b"\x00"), ("tok", tok.serialize() + b"\x00")]
         except Exception:
-            return ev
+            return None          # no bytes to tamper with: the pipelines report that failure, there is no foreign-bytes probe
         for o, b in probes:
             e = {"op": "Foreign", "obj": o, "out": "accepted"}
             try:
@@ -578,6 +578,9 @@ def build_cases(tr, mism, points, mcov):
         elif s == "CGKO06.SSE2":
             d = dict(d, param_dictionary_size=64)
         cases.append((s, "bigresult", d, [300, 1]))
+        if s == "CGKO06.SSE2":
+            # a small file-size bound makes `max` small, so that n + max needs more bytes than max alone
+            cases.append((s, "bigresult-smallmax", dict(d, param_max_file_size=100), [300, 1]))
     mcov["model"]["MC_Profiles_runs"] = runs
     return cases
 
@@ -594,7 +597,9 @@ def run_one(job, hists):
         traces.append(dict(meta, tid="c%d.h%d" % (i, hi), hist=list(h), ev=case.run(h)))
     for j, ev in enumerate(case.run_remote()):
         traces.append(dict(meta, tid="c%d.remote%d" % (i, j), hist=["remote"], ev=ev))
-    traces.append(dict(meta, tid="c%d.foreign" % i, hist=["foreign"], ev=case.run_foreign()))
+    fev = case.run_foreign()
+    if fev is not None:
+        traces.append(dict(meta, tid="c%d.foreign" % i, hist=["foreign"], ev=fev))
     return traces
 
 
